@@ -59,10 +59,14 @@ enum St {
 struct Slot {
     payload: Vec<i64>,
     st: St,
+    /// this amount is the result of a `+=` (concatenation is associative, so a re-grouping such as x + (d1 + d2)
+    /// instead of (x + d1) + d2 would not show in the payload: it is flagged when a COMBINED amount is added)
+    combined: bool,
 }
 thread_local! {
     static TABLE: RefCell<Vec<Slot>> = RefCell::new(Vec::new());
     static DROPS: RefCell<Vec<Vec<i64>>> = RefCell::new(Vec::new());
+    static REGROUPED: std::cell::Cell<bool> = std::cell::Cell::new(false);
 }
 
 pub struct Amount(usize);
@@ -71,7 +75,7 @@ impl Amount {
     fn new(v: Vec<i64>) -> Amount {
         TABLE.with(|t| {
             let mut t = t.borrow_mut();
-            t.push(Slot { payload: v, st: St::Live });
+            t.push(Slot { payload: v, st: St::Live, combined: false });
             Amount(t.len() - 1)
         })
     }
@@ -88,8 +92,10 @@ impl AddAssign for Amount {
         TABLE.with(|t| {
             let mut t = t.borrow_mut();
             let p = std::mem::take(&mut t[rhs.0].payload);
+            if t[rhs.0].combined { REGROUPED.with(|r| r.set(true)); }
             t[rhs.0].st = St::Merged;
             t[self.0].payload.extend(p);
+            t[self.0].combined = true;
         });
     }
 }
@@ -583,7 +589,8 @@ impl Exec {
         out.push_str(&show_op(op));
         flush(out);
         let r = catch_unwind(AssertUnwindSafe(|| self.step_inner(op)));
-        let res = r.unwrap_or_else(|_| "panic".into());
+        let mut res = r.unwrap_or_else(|_| "panic".into());
+        if REGROUPED.with(|r| r.replace(false)) { res = format!("regrouped {}", res); }
         let cs_op = !matches!(op, Op::Create | Op::Skip(_) | Op::Del(_) | Op::Ins(..) | Op::Rem(..));
         let drops = drops_take();
         out.push_str(" => ");
